@@ -198,7 +198,7 @@ theorem inv_step {s : St} (h : Inv s) (ev : Ev) : Inv (step s ev) := by
       rcases hr with hr | hr
       · exact h r hr
       · rw [hr]; exact rinv_fresh _ _ _
-  | write f tag =>
+  | write f tag data =>
     intro r hr
     simp only [step, List.mem_map] at hr
     obtain ⟨r0, hr0, rfl⟩ := hr
@@ -255,7 +255,7 @@ theorem no_backlog_when_idle (cap : Nat) (evs : List Ev) (r : Rd) (hr : r ∈ (r
 /-- what an event does to an existing reader -/
 def evFun : Ev → Rd → Rd
   | .add _ _ => id
-  | .write f tag => fun r => r.push ⟨f, tag⟩
+  | .write f tag data => fun r => r.push ⟨f, tag, data⟩
   | .done i => fun r => if r.id == i then r.done else r
   | .fail i => fun r => if r.id == i then r.fail else r
   | .remove i => fun r => if r.id == i then r.remove else r
@@ -269,7 +269,7 @@ theorem step_pointwise (s : St) (ev : Ev) :
     split
     · exact ⟨[], by simp [evFun]⟩
     · exact ⟨[{ id := i, subs := subs, cap := s.cap }], by simp [evFun]⟩
-  | write f tag => exact ⟨[], by simp [step, evFun]⟩
+  | write f tag data => exact ⟨[], by simp [step, evFun]⟩
   | done i => exact ⟨[], by simp [step, evFun, onReader]⟩
   | fail i => exact ⟨[], by simp [step, evFun, onReader]⟩
   | remove i => exact ⟨[], by simp [step, evFun, onReader]⟩
@@ -286,11 +286,11 @@ theorem settle_delivered_prefix (r : Rd) : r.delivered <+: r.settle.delivered :=
 theorem delivered_grows (ev : Ev) (r : Rd) : r.delivered <+: (evFun ev r).delivered := by
   cases ev with
   | add i subs => exact List.prefix_refl _
-  | write f tag =>
+  | write f tag data =>
     simp only [evFun, Rd.push]
     split
     · split
-      · exact settle_delivered_prefix { r with written := r.written ++ [⟨f, tag⟩], q := r.q ++ [⟨f, tag⟩] }
+      · exact settle_delivered_prefix { r with written := r.written ++ [⟨f, tag, data⟩], q := r.q ++ [⟨f, tag, data⟩] }
       · exact List.prefix_refl _
     · exact List.prefix_refl _
   | done i =>
@@ -316,11 +316,11 @@ theorem delivered_grows (ev : Ev) (r : Rd) : r.delivered <+: (evFun ev r).delive
 theorem written_is_history (ev : Ev) (r : Rd) :
     (evFun ev r).written =
       match ev with
-      | .write f tag => if r.attached && r.subs.contains f then r.written ++ [⟨f, tag⟩] else r.written
+      | .write f tag data => if r.attached && r.subs.contains f then r.written ++ [⟨f, tag, data⟩] else r.written
       | _ => r.written := by
   cases ev with
   | add i subs => rfl
-  | write f tag =>
+  | write f tag data =>
     simp only [evFun, Rd.push]
     split
     · split
@@ -353,19 +353,19 @@ of an attached reader whose queue is not full is accepted. -/
 theorem skip_only_when_full (cap : Nat) (evs : List Ev) (r : Rd) (hr : r ∈ (run (init cap) evs).rds)
     (ev : Ev) :
     ((evFun ev r).discarded ≠ r.discarded →
-      ∃ f tag, ev = .write f tag ∧ r.attached = true ∧ r.subs.contains f = true ∧ r.q.length = r.cap ∧
+      ∃ f tag data, ev = .write f tag data ∧ r.attached = true ∧ r.subs.contains f = true ∧ r.q.length = r.cap ∧
         (evFun ev r).discarded = r.discarded + 1 ∧ (evFun ev r).delivered = r.delivered ∧
         (evFun ev r).q = r.q) ∧
-    (∀ f tag, ev = .write f tag → r.attached = true → r.subs.contains f = true → r.q.length < r.cap →
+    (∀ f tag data, ev = .write f tag data → r.attached = true → r.subs.contains f = true → r.q.length < r.cap →
       (evFun ev r).discarded = r.discarded ∧
-      (evFun ev r).delivered ++ (evFun ev r).q = r.delivered ++ r.q ++ [⟨f, tag⟩]) := by
+      (evFun ev r).delivered ++ (evFun ev r).q = r.delivered ++ r.q ++ [⟨f, tag, data⟩]) := by
   have hb := (inv_reach cap evs r hr).core.bound
   cases ev with
   | add i subs => simp [evFun]
-  | write f tag =>
+  | write f tag data =>
     constructor
     · intro hne
-      refine ⟨f, tag, rfl, ?_⟩
+      refine ⟨f, tag, data, rfl, ?_⟩
       simp only [evFun, Rd.push] at hne ⊢
       split at hne
       · rename_i hs
@@ -376,7 +376,7 @@ theorem skip_only_when_full (cap : Nat) (evs : List Ev) (r : Rd) (hr : r ∈ (ru
           simp only [hs.1, hs.2, Bool.and_self, if_true, hge, if_false]
           exact ⟨trivial, trivial, by omega, trivial, trivial, trivial⟩
       · exact absurd rfl hne
-    · intro f' tag' he ha hs hlt
+    · intro f' tag' data' he ha hs hlt
       cases he
       simp only [evFun, Rd.push, ha, hs, Bool.and_self, if_true, hlt]
       refine ⟨(settle_fields _).2.2.2.2.2.1, ?_⟩
@@ -391,7 +391,7 @@ theorem skip_only_when_full (cap : Nat) (evs : List Ev) (r : Rd) (hr : r ∈ (ru
       · simp
   | done i =>
     simp only [evFun]
-    refine ⟨?_, by intro f tag he; cases he⟩
+    refine ⟨?_, by intro f tag data he; cases he⟩
     intro hne
     split at hne
     · unfold Rd.done at hne
@@ -401,14 +401,14 @@ theorem skip_only_when_full (cap : Nat) (evs : List Ev) (r : Rd) (hr : r ∈ (ru
     · exact absurd rfl hne
   | fail i =>
     simp only [evFun]
-    refine ⟨?_, by intro f tag he; cases he⟩
+    refine ⟨?_, by intro f tag data he; cases he⟩
     intro hne
     split at hne
     · unfold Rd.fail at hne; split at hne <;> exact absurd rfl hne
     · exact absurd rfl hne
   | remove i =>
     simp only [evFun]
-    refine ⟨?_, by intro f tag he; cases he⟩
+    refine ⟨?_, by intro f tag data he; cases he⟩
     intro hne
     split at hne
     · unfold Rd.remove at hne; split at hne <;> exact absurd rfl hne
@@ -419,7 +419,7 @@ theorem skip_only_when_full (cap : Nat) (evs : List Ev) (r : Rd) (hr : r ∈ (ru
 theorem evFun_id (ev : Ev) (r : Rd) : (evFun ev r).id = r.id := by
   cases ev with
   | add i subs => rfl
-  | write f tag => exact push_id _ _
+  | write f tag data => exact push_id _ _
   | done i => simp only [evFun]; split; exact done_id _; rfl
   | fail i => simp only [evFun]; split; exact fail_id _; rfl
   | remove i => simp only [evFun]; split; exact remove_id _; rfl
@@ -428,7 +428,7 @@ theorem evFun_frozen (ev : Ev) (r : Rd) (ha : r.attached = false) (hi : r.infl =
     evFun ev r = r := by
   cases ev with
   | add i subs => rfl
-  | write f tag => exact push_frozen _ _ ha
+  | write f tag data => exact push_frozen _ _ ha
   | done i => simp only [evFun]; split; exact done_frozen _ hi; rfl
   | fail i => simp only [evFun]; split; exact fail_frozen _ hi; rfl
   | remove i => simp only [evFun]; split; exact remove_frozen _ ha; rfl
@@ -484,8 +484,8 @@ theorem silent_after_remove (cap : Nat) (evs1 evs2 : List Ev) (i : Nat) (r : Rd)
 
 /-! #### non-vacuity and regression examples (kernel-decided) -/
 
-def exRun := run (init 1) [.add 0 [0], .add 1 [1], .write 0 10, .write 0 11, .write 0 12, .write 1 13,
-  .done 0, .remove 0, .write 0 14]
+def exRun := run (init 1) [.add 0 [0], .add 1 [1], .write 0 10 [], .write 0 11 [], .write 0 12 [], .write 1 13 [],
+  .done 0, .remove 0, .write 0 14 []]
 
 -- reader 0: unit 10 handed over at once, 11 queued, 12 skipped (queue of 1 full) and counted,
 -- after `done` 11 is handed over; after `remove` nothing more
